@@ -10,7 +10,13 @@ struct St {
     status: Vec<u8>,
     turn: Option<usize>,
     free_run: bool,
+    /// the execution was given up (deadlock, infeasible schedule): threads still inside it unwind at their
+    /// next scheduling point instead of spinning or waiting for ever
+    aborted: bool,
 }
+
+/// payload of the unwinding of an abandoned worker
+struct Abandoned;
 
 pub struct Sched {
     m: Mutex<St>,
@@ -41,7 +47,7 @@ pub fn blocked() {
 
 impl Sched {
     fn new(n: usize) -> Arc<Sched> {
-        Arc::new(Sched { m: Mutex::new(St { status: vec![0; n], turn: None, free_run: false }), cv: Condvar::new() })
+        Arc::new(Sched { m: Mutex::new(St { status: vec![0; n], turn: None, free_run: false, aborted: false }), cv: Condvar::new() })
     }
     fn point(&self, tid: usize) {
         self.wait_turn(tid, 1)
@@ -49,7 +55,12 @@ impl Sched {
     fn wait_turn(&self, tid: usize, as_status: u8) {
         let mut st = self.m.lock().unwrap_or_else(|e| e.into_inner());
         if st.free_run {
+            let aborted = st.aborted;
             drop(st);
+            if aborted && as_status == 3 {
+                // a blocked thread of an abandoned execution would retry for ever: unwind it
+                std::panic::resume_unwind(Box::new(Abandoned));
+            }
             if as_status == 3 {
                 std::thread::yield_now();
             }
@@ -59,6 +70,10 @@ impl Sched {
         self.cv.notify_all();
         while st.turn != Some(tid) && !st.free_run {
             st = self.cv.wait(st).unwrap_or_else(|e| e.into_inner());
+        }
+        if st.free_run && st.aborted && as_status == 3 {
+            drop(st);
+            std::panic::resume_unwind(Box::new(Abandoned));
         }
         st.status[tid] = 0;
         st.turn = None;
@@ -171,6 +186,7 @@ pub fn run_once<R: Send + 'static + Default>(bodies: &[Body<R>], prefix: &[usize
                     }
                     _ => {
                         st.free_run = true;
+                        st.aborted = true;
                         s.cv.notify_all();
                         infeasible = true;
                         break 'outer;
@@ -181,9 +197,18 @@ pub fn run_once<R: Send + 'static + Default>(bodies: &[Body<R>], prefix: &[usize
             st = g;
         }
         // 2. decide
-        for t in 0..n {
-            if st.status[t] == 3 && awaited == Some(t) {
-                retry_ok[t] = false; // it just failed to take the lock
+        // A thread that reported itself blocked may retry only after ANOTHER thread has made progress (reached an
+        // ordinary point or finished); another thread's failed retry is no progress — otherwise two threads that
+        // wait for each other would take turns failing for ever instead of being recognised as a deadlock.
+        if let Some(a) = awaited {
+            if st.status[a] == 3 {
+                retry_ok[a] = false; // it just failed
+            } else {
+                for t in 0..n {
+                    if t != a {
+                        retry_ok[t] = true;
+                    }
+                }
             }
         }
         let mut enabled: Vec<usize> = (0..n).filter(|&t| st.status[t] == 1 || (st.status[t] == 3 && retry_ok[t])).collect();
@@ -192,8 +217,9 @@ pub fn run_once<R: Send + 'static + Default>(bodies: &[Body<R>], prefix: &[usize
                 break;
             }
             if (0..n).all(|t| st.status[t] == 2 || st.status[t] == 3) {
-                // every live thread waits for a lock nobody will release
+                // every live thread waits for a lock (or a notification) nobody will give
                 st.free_run = true;
+                st.aborted = true;
                 s.cv.notify_all();
                 infeasible = true;
                 deadlocked = true;
@@ -208,6 +234,7 @@ pub fn run_once<R: Send + 'static + Default>(bodies: &[Body<R>], prefix: &[usize
                 let now = Instant::now();
                 if now >= deadline {
                     st.free_run = true;
+                    st.aborted = true;
                     s.cv.notify_all();
                     infeasible = true; // deadlock among threads the scheduler does not own
                     break 'outer;
@@ -238,6 +265,7 @@ pub fn run_once<R: Send + 'static + Default>(bodies: &[Body<R>], prefix: &[usize
             // something that survived from an earlier execution (a global cache, a lazily initialised static):
             // the schedule is given up and counted, it is not a verdict by itself.
             st.free_run = true;
+            st.aborted = true;
             s.cv.notify_all();
             infeasible = true;
             diverged = true;
@@ -248,22 +276,33 @@ pub fn run_once<R: Send + 'static + Default>(bodies: &[Body<R>], prefix: &[usize
         choices.push(choice);
         prev = Some(tid);
         awaited = Some(tid);
-        for t in 0..n {
-            if t != tid {
-                retry_ok[t] = true;
-            }
-        }
         st.turn = Some(tid);
         s.cv.notify_all();
     }
+    // Workers of an abandoned execution unwind at their next scheduling point; one that is blocked inside the
+    // operating system (a real lock of a deadlocked execution) never comes back: it is left behind, not joined.
     let mut results = vec![];
+    let give_up = Instant::now() + Duration::from_millis(1500);
     for h in handles {
-        results.push(h.join().ok().flatten().unwrap_or_default());
+        if infeasible {
+            while !h.is_finished() && Instant::now() < give_up {
+                std::thread::sleep(Duration::from_millis(1));
+            }
+        }
+        if !infeasible || h.is_finished() {
+            results.push(h.join().ok().flatten().unwrap_or_default());
+        } else {
+            results.push(R::default());
+            std::mem::forget(h);
+        }
     }
     Execution { points, choices, results, infeasible, overlapped, deadlocked, diverged }
 }
 
 pub struct Exploration {
+    /// the exploration was cut short: too many executions ended on a time-out (a thread stuck in the operating
+    /// system, outside the scheduler's control); what was explored until then is still reported
+    pub gave_up: bool,
     pub executions: u64,
     pub infeasible: u64,
     pub overlapped: u64,
@@ -275,11 +314,14 @@ pub struct Exploration {
 /// Explore every schedule with at most `bound` preemptions (CHESS-style, by re-execution).
 /// `check` is called with (choices, results) of every complete feasible execution.
 pub fn explore<R: Send + 'static + Default>(bodies: &[Body<R>], bound: usize, reset: &dyn Fn(), check: &mut dyn FnMut(&[usize], &[R])) -> Exploration {
-    let mut ex = Exploration { executions: 0, infeasible: 0, overlapped: 0, deadlocks: vec![], diverged: 0, max_points: 0 };
+    let mut ex = Exploration { gave_up: false, executions: 0, infeasible: 0, overlapped: 0, deadlocks: vec![], diverged: 0, max_points: 0 };
     fn preemptions(points: &[Point], choices: &[usize], upto: usize) -> usize {
         (0..upto).filter(|&i| points[i].running_still_enabled && choices[i] != 0).count()
     }
     fn rec<R: Send + 'static + Default>(bodies: &[Body<R>], bound: usize, prefix: Vec<usize>, ex: &mut Exploration, reset: &dyn Fn(), check: &mut dyn FnMut(&[usize], &[R])) {
+        if ex.gave_up {
+            return;
+        }
         reset(); // every execution starts from the same initial state
         let x = run_once(bodies, &prefix);
         ex.executions += 1;
@@ -295,6 +337,9 @@ pub fn explore<R: Send + 'static + Default>(bodies: &[Body<R>], bound: usize, re
         }
         if x.infeasible {
             ex.infeasible += 1;
+            if !x.deadlocked && !x.diverged && ex.infeasible - ex.deadlocks.len() as u64 - ex.diverged > 4 {
+                ex.gave_up = true;
+            }
             return;
         }
         check(&x.choices, &x.results);
